@@ -87,6 +87,7 @@ class GuardMonitor(Monitor):
         self.pred = pred
         self.bad = []
         self.muts = 0
+        self._inits = {}
 
     def _mut(self, core, node, eng):
         self.muts += 1
@@ -111,7 +112,10 @@ class GuardMonitor(Monitor):
         return self._mut(core, node, eng)
 
     def on_branch(self, core, cond, truth, eng):
-        c = X.strip(cond)
+        fkey = eng[1].f["key"]
+        if fkey not in self._inits:
+            self._inits[fkey] = C.single_inits(eng[1].f)
+        c = X.strip(C.resolve_flag(cond, self._inits[fkey]))
         neg = False
         while isinstance(c, dict) and c.get("k") == "un" and c.get("op") == "!":
             neg = not neg
